@@ -278,7 +278,7 @@ package decimal
 
 //@ func (z *Decimal) Set(x *Decimal) *Decimal
 //@   nomerge
-//@   requires[wf] z != nil && opnd(x) && sep(z, x) && z.mode <= 5 && len(x.mant) <= 100000000
+//@   requires[wf] z != nil && opnd(x) && sep(z, x) && z.mode <= 5
 //@   modifies z.prec, z.acc, z.form, z.neg, z.exp, z.mant, memcap(z.mant)
 //@   ensures[result] result == z
 //@   ensures[prec,C09] z.prec == (old(z.prec) == 0 ? old(x.prec) : old(z.prec))
@@ -293,7 +293,7 @@ package decimal
 //@   ensures[exact,C01,C02] z != x && old(x.form) == finite && z.prec >= old(x.prec) ==> z.acc == 0 && z.form == finite && z.exp == old(x.exp) && V(z.mant) == old(V(x.mant)) && len(z.mant) == old(len(x.mant))
 
 //@ func (z *Decimal) Neg(x *Decimal) *Decimal
-//@   requires[wf] z != nil && opnd(x) && sep(z, x) && z.mode <= 5 && len(x.mant) <= 100000000
+//@   requires[wf] z != nil && opnd(x) && sep(z, x) && z.mode <= 5
 //@   modifies z.prec, z.acc, z.form, z.neg, z.exp, z.mant, memcap(z.mant)
 //@   ensures[result] result == z
 //@   ensures[prec,C09] z.prec == (old(z.prec) == 0 ? old(x.prec) : old(z.prec))
@@ -303,7 +303,7 @@ package decimal
 //@   ensures[valid,C08] valid(z)
 
 //@ func (z *Decimal) Abs(x *Decimal) *Decimal
-//@   requires[wf] z != nil && opnd(x) && sep(z, x) && z.mode <= 5 && len(x.mant) <= 100000000
+//@   requires[wf] z != nil && opnd(x) && sep(z, x) && z.mode <= 5
 //@   modifies z.prec, z.acc, z.form, z.neg, z.exp, z.mant, memcap(z.mant)
 //@   ensures[result] result == z
 //@   ensures[prec,C09] z.prec == (old(z.prec) == 0 ? old(x.prec) : old(z.prec))
